@@ -746,7 +746,7 @@ done:
 				switch tv := prev.(type) {
 				case []any:
 					for i, vv := range tv {
-						if tf.Match(vv) {
+						if tf.matchRoot(data, vv) {
 							if nv, changed := modifier(vv); changed {
 								tv[i] = nv
 								if one && changed {
@@ -759,7 +759,7 @@ done:
 					size := tv.Size()
 					for i := 0; i < size; i++ {
 						v = tv.ValueAtIndex(i)
-						if tf.Match(v) {
+						if tf.matchRoot(data, v) {
 							if nv, changed := modifier(v); changed {
 								tv.SetValueAtIndex(i, nv)
 								if one && changed {
@@ -770,7 +770,7 @@ done:
 					}
 				case gen.Array:
 					for i, vv := range tv {
-						if tf.Match(vv) {
+						if tf.matchRoot(data, vv) {
 							if nv, changed := modifier(vv); changed {
 								tv[i] = nv.(gen.Node)
 								if one && changed {
@@ -787,7 +787,7 @@ done:
 						for i := 0; i < cnt; i++ {
 							iv := rv.Index(i)
 							vv := iv.Interface()
-							if tf.Match(vv) {
+							if tf.matchRoot(data, vv) {
 								if nv, changed := modifier(vv); changed {
 									iv.Set(reflect.ValueOf(nv))
 									if one && changed {
@@ -804,7 +804,7 @@ done:
 						for _, k := range keys {
 							ev := rv.MapIndex(k)
 							vv := ev.Interface()
-							if tf.Match(vv) {
+							if tf.matchRoot(data, vv) {
 								if nv, changed := modifier(vv); changed {
 									rv.SetMapIndex(k, reflect.ValueOf(nv))
 									if one && changed {
